@@ -201,6 +201,15 @@ def eq_term(a, b):
         return SymFloat.lift(a).t == SymFloat.lift(b).t
     if isinstance(a, (SymInt, int)) and isinstance(b, (SymInt, int)):
         return truth(SymInt.lift(a) == SymInt.lift(b))
+    import datetime as _dtm
+    if isinstance(a, _dtm.date) and not isinstance(a, _dtm.datetime) and isinstance(b, SymDate):
+        a = SymDate(a.toordinal())
+    if isinstance(b, _dtm.date) and not isinstance(b, _dtm.datetime) and isinstance(a, SymDate):
+        b = SymDate(b.toordinal())
+    if isinstance(a, _dtm.time) and isinstance(b, SymTime):
+        a = SymTime(a.hour, a.minute, a.second) if a.microsecond == 0 else a
+    if isinstance(b, _dtm.time) and isinstance(a, SymTime):
+        b = SymTime(b.hour, b.minute, b.second) if b.microsecond == 0 else b
     if isinstance(a, SymDate) and isinstance(b, SymDate):
         return eq_term(a.ordinal, b.ordinal)
     if isinstance(a, SymTime) and isinstance(b, SymTime):
